@@ -232,6 +232,11 @@ var c04VarItems = []c04Var{
 	{Name: types.VarPath, Value: "/a"},
 	{Name: types.VarPath, Regex: "^/a.*$"},
 	{Name: types.VarHost, Value: "a.com"},
+	// regular expressions without a meta character: still a SEARCH (unanchored), not an equality test
+	// (seeded change C04-r7: a "literal fast path" compared them with ==); "a" is a proper substring of
+	// the paths /a /ab, ".co" needs the regex engine and is a proper substring of both hosts
+	{Name: types.VarPath, Regex: "a"},
+	{Name: types.VarHost, Regex: "com"},
 }
 
 func TestVerifC04VarChains(t *testing.T) {
